@@ -760,7 +760,8 @@ def depth(e):
 
 
 # ----------------------------------------------------------------------------------------------- generators
-WORDS = ["a", "ab", "abc", "hello", "x", "あ", "あい", "😽", "à", "b​c", "wörld", "supercalifragilistic", "漢字かな交じり文", "e̊e̊"]
+WORDS = ["a", "ab", "abc", "hello", "x", "あ", "あい", "😽", "à", "b​c", "wörld", "supercalifragilistic", "漢字かな交じり文", "e̊e̊",
+         "がぎぐげご", "あ̀い̀う̀"]  # the last two: #code points == #cells with no one-cell character
 
 
 def gen_plain(rng, rich_chars=True):
